@@ -2,6 +2,7 @@
 
      one   <force> <paths> <queues> <order> <statuses>
      sweep <force> <paths> <queues> <order> <E>
+     paths <cascade>                                  (BranchCascade.get_merge_paths)
 
    <paths>    path/path/...      path = ver,ver,...  ("e" = empty path, "-" = no path at all)
    <queues>   ver=<master 0|1>:pr@c,pr@c;ver=...   versions in the order _add_branch meets them,
@@ -49,12 +50,9 @@ let show_shape qs =
 
 let result st paths force order qs =
   let m =
-    match process st paths force qs with
+    match evaluate st paths force qs with          (* the function of theorem C05_full *)
     | Err e -> "ERR:" ^ show_err e
-    | Ok (prs, mq) ->
-      (match moves mq with
-       | Err e -> "ERR:" ^ show_err e
-       | Ok mv -> show_prs prs ^ "/" ^ show_moves mv ^ "/" ^ show_prs (failed_prs st qs)) in
+    | Ok (prs, mv) -> show_prs prs ^ "/" ^ show_moves mv ^ "/" ^ show_prs (failed_prs st qs) in
   let s = show_prs (spec_prs st force order qs) ^ "/" ^ show_moves (spec_moves st force order qs) in
   "M" ^ m ^ " S" ^ s
 
@@ -91,5 +89,14 @@ let () = iter_lines (fun l ->
            done;
            Buffer.contents b
          end)
+    | ["paths"; casc] ->
+      (* paths dev|stab|hf;dev|stab|hf;...   ('-' = None)  ->  get_merge_paths, same syntax as <paths> *)
+      let opt w = if w = "-" then None else Some (parse_version w) in
+      let entry w = match split '|' w with
+        | [d; s; h] -> { c_dev = opt d; c_stab = opt s; c_hf = opt h }
+        | _ -> failwith "bad cascade entry" in
+      let c = if casc = "-" then [] else List.map entry (split ';' casc) in
+      let show_path p = if p = [] then "e" else join "," (List.map show_version p) in
+      (match get_merge_paths c with [] -> "-" | ps -> join "/" (List.map show_path ps))
     | _ -> "ERR bad request"
   with Failure m -> "ERR " ^ m)
